@@ -150,6 +150,10 @@ def _build(case, r):
         comps = [(nme, _params(nme, r)) for nme in [r.choice(["Langmuir", "DSLangmuir", "Toth"]) for _ in range(n)]]
     else:
         comps = [(nme, _params(nme, r)) for nme in [r.choice(MIX_MODELS) for _ in range(n)]]
+        if case["seed"] % 5 == 2 and n >= 3:
+            # a component whose spreading-pressure expression is also defined (and positive) at negative arguments comes last, where
+            # its mole fraction is obtained by closure
+            comps[-1] = ("Quadratic", _params("Quadratic", r))
     isos = [(_point_iso if fl == "point" else _model_iso)(nme, P, i) for i, (nme, P) in enumerate(comps)]
     # partial pressures over six decades: traces (1e-5) next to bulk components
     u = r.random()
